@@ -128,16 +128,16 @@ structure Store.Extends (s s' : Store α) : Prop where
 theorem Store.Extends.refl (s : Store α) : s.Extends s :=
   ⟨List.prefix_refl _, List.prefix_refl _, List.prefix_refl _, rfl, rfl⟩
 
-theorem newRxn_extends (s : Store α) (a : RVal α) : s.Extends (s.newRxn a).1 :=
+theorem newRxn_extends (s : Store α) (p : Nat) (a : RVal α) : s.Extends (s.newRxn p a).1 :=
   ⟨List.prefix_append _ _, List.prefix_refl _, List.prefix_append _ _, rfl, rfl⟩
 
 theorem step_pure (s : Store α) (op : Op α) (r : Except Err (RVal α)) (hp : s.pureOp op = some r) :
-    s.step op = r.bind (fun a => .ok (s.newRxn a)) := by
+    s.step op = r.bind (fun a => .ok (s.newRxn (s.opPkg op) a)) := by
   cases r <;> simp [Store.step, hp, Except.bind]
 
 theorem step_pure_ok (s s' : Store α) (op : Op α) (k : Nat) (r : Except Err (RVal α))
     (hp : s.pureOp op = some r) (h : s.step op = .ok (s', k)) :
-    ∃ a, r = .ok a ∧ s' = (s.newRxn a).1 ∧ k = (s.newRxn a).2 := by
+    ∃ a, r = .ok a ∧ s' = (s.newRxn (s.opPkg op) a).1 ∧ k = (s.newRxn (s.opPkg op) a).2 := by
   rw [step_pure s op r hp] at h
   cases r with
   | error e => simp [Except.bind] at h
@@ -154,7 +154,7 @@ def XRef.WF (s : Store α) : XRef α → Prop
 def Obj.WF (s : Store α) : Obj α → Prop
   | .rxn r => r.nu < s.arrs.length ∧ r.x.WF s
   | .set t => (∀ id ∈ t.rows, id < s.arrs.length) ∧ t.xa < s.xarrs.length ∧
-              (s.xarrs.getD t.xa []).length = t.rows.length ∧ t.ridxs.length = t.rows.length
+              t.xoff + t.rows.length ≤ (s.xarrs.getD t.xa []).length ∧ t.ridxs.length = t.rows.length
 
 def Store.WF (s : Store α) : Prop := ∀ o ∈ s.objs, o.WF s
 
@@ -252,8 +252,8 @@ theorem wf_same (s s' : Store α) (hwf : s.WF) (g : s.Grows s') (hobjs : s'.objs
   rw [hobjs] at hq
   exact Obj.WF_mono g q (hwf q hq)
 
-theorem newRxn_wf (s : Store α) (hwf : s.WF) (a : RVal α) : (s.newRxn a).1.WF := by
-  apply wf_append s _ hwf (newRxn_extends s a).grows _ rfl
+theorem newRxn_wf (s : Store α) (hwf : s.WF) (p : Nat) (a : RVal α) : (s.newRxn p a).1.WF := by
+  apply wf_append s _ hwf (newRxn_extends s p a).grows _ rfl
   simp [Obj.WF, XRef.WF, Store.newRxn]
 
 theorem getD_set_length {β : Type} (l : List (List β)) (xa i : Nat) (x : β) (k : Nat) :
@@ -350,8 +350,8 @@ theorem setBasisOp_wf (s s' : Store α) (a : Nat) (b : BArg) (k : Nat) (hwf : s.
     exact wf_set s _ hwf ⟨by simp, le_refl _, fun _ _ => rfl⟩ a _ rfl
       ⟨by simpa using hra'.1, XRef.WF_mono (s' := { s with arrs := s.arrs.set ra.nu r.v }) ⟨by simp, le_refl _, fun _ _ => rfl⟩ _ hra'.2⟩
 
-theorem mkSetOp_wf (s s' : Store α) (ms : List Nat) (k : Nat) (hwf : s.WF)
-    (h : s.mkSetOp ms = .ok (s', k)) : s'.WF := by
+theorem mkSetOp_wf (s s' : Store α) (ser : Bool) (ms : List Nat) (k : Nat) (hwf : s.WF)
+    (h : s.mkSetOp ser ms = .ok (s', k)) : s'.WF := by
   unfold Store.mkSetOp at h
   split at h; · simp at h
   rename_i rs hrs
@@ -376,7 +376,7 @@ theorem itemOp_wf (s s' : Store α) (sid i : Nat) (k : Nat) (hwf : s.WF)
     simp at h; rw [← h.1]
     obtain ⟨h1, h2, h3, h4⟩ := set_wf_of_ok hwf ht
     refine wf_append s _ hwf ⟨le_refl _, le_refl _, fun _ _ => rfl⟩ _ rfl ?_
-    refine ⟨?_, h2, by simp only; rw [h3]; exact hi⟩
+    refine ⟨?_, h2, by simp only; omega⟩
     simp only [List.getElem?_eq_getElem hi, Option.getD_some]
     exact h1 _ (List.getElem_mem hi)
   · simp at h
@@ -398,6 +398,7 @@ theorem reduceOp_wf (s s' : Store α) (sid : Nat) (order : List Nat) (k : Nat) (
   rename_i t ht
   split at h; · simp at h
   split at h; · simp at h
+  split at h; · simp at h
   rename_i vs hvs
   simp at h; rw [← h.1]
   refine wf_append s _ hwf ⟨by simp, by simp, fun xa hxa => by simp [List.getD, List.getElem?_append_left hxa]⟩ _ rfl ?_
@@ -406,6 +407,34 @@ theorem reduceOp_wf (s s' : Store α) (sid : Nat) (order : List Nat) (k : Nat) (
   simp only [List.mem_map, List.mem_range] at hid
   obtain ⟨j, hj, rfl⟩ := hid
   simp; omega
+
+theorem setCopyOp_wf (s s' : Store α) (sid : Nat) (b : BArg) (k : Nat) (hwf : s.WF)
+    (h : s.setCopyOp sid b = .ok (s', k)) : s'.WF := by
+  unfold Store.setCopyOp at h
+  split at h; · simp at h
+  rename_i t ht
+  split at h; · simp at h
+  split at h; · simp at h
+  rename_i vs hvs
+  simp at h; rw [← h.1]
+  refine wf_append s _ hwf ⟨by simp, by simp, fun xa hxa => by simp [List.getD, List.getElem?_append_left hxa]⟩ _ rfl ?_
+  refine ⟨?_, by simp, by simp [List.getD], by simp⟩
+  intro id hid
+  simp only [List.mem_map, List.mem_range] at hid
+  obtain ⟨j, hj, rfl⟩ := hid
+  simp; omega
+
+theorem sliceOp_wf (s s' : Store α) (sid i j : Nat) (k : Nat) (hwf : s.WF)
+    (h : s.sliceOp sid i j = .ok (s', k)) : s'.WF := by
+  unfold Store.sliceOp at h
+  split at h; · simp at h
+  rename_i t ht
+  simp at h; rw [← h.1]
+  obtain ⟨h1, h2, h3, h4⟩ := set_wf_of_ok hwf ht
+  refine wf_append s _ hwf ⟨le_refl _, le_refl _, fun _ _ => rfl⟩ _ rfl ?_
+  refine ⟨fun id hid => h1 id (List.mem_of_mem_take (List.mem_of_mem_drop hid)), h2, ?_, ?_⟩
+  · simp only [List.length_drop, List.length_take]; omega
+  · simp only [List.length_drop, List.length_take]; omega
 
 /-! ### Reading values back -/
 
@@ -432,9 +461,9 @@ theorem rxn?_of_getElem? {s : Store α} {a : Nat} {r : Rxn α} (h : s.objs[a]? =
     s.rxn? a = .ok r := by
   simp [Store.rxn?, h]
 
-theorem newRxn_valOf (s : Store α) (a : RVal α) : (s.newRxn a).1.valOf (s.newRxn a).2 = .ok a := by
-  have h : (s.newRxn a).1.rxn? (s.newRxn a).2 =
-      .ok { nu := s.arrs.length, ridx := a.ridx, x := .own a.x, basis := a.basis, ph := a.ph } := by
+theorem newRxn_valOf (s : Store α) (p : Nat) (a : RVal α) : (s.newRxn p a).1.valOf (s.newRxn p a).2 = .ok a := by
+  have h : (s.newRxn p a).1.rxn? (s.newRxn p a).2 =
+      .ok { nu := s.arrs.length, ridx := a.ridx, x := .own a.x, basis := a.basis, ph := a.ph, pkg := p } := by
     apply rxn?_of_getElem?; simp [Store.newRxn]
   rw [valOf_of_rxn? h]
   simp [Store.val, Store.newRxn, Store.arr, Store.getX, List.getD]
@@ -559,6 +588,23 @@ theorem backwards_normal (nchem : Nat) (a c : RVal α) (r : Option Nat) (x : Opt
   simp at h; subst h
   exact Or.inl (rescale_normal _ _ _ hv)
 
+theorem resetOp_wf (s s' : Store α) (a p : Nat) (k : Nat) (hwf : s.WF)
+    (h : s.resetOp a p = .ok (s', k)) : s'.WF := by
+  unfold Store.resetOp at h
+  split at h
+  · rename_i ra hra
+    split at h; · simp at h
+    split at h
+    · simp at h; rw [← h.1]; exact hwf
+    · split at h; · simp at h
+      split at h; · simp at h
+      rename_i r hr
+      simp at h; rw [← h.1]
+      have hra' : (Obj.rxn ra).WF s := hwf _ (List.mem_of_getElem? hra)
+      refine wf_set s _ hwf ⟨by simp, le_refl _, fun _ _ => rfl⟩ a _ rfl ⟨by simp, ?_⟩
+      exact XRef.WF_mono (s' := { s with arrs := s.arrs ++ [r.v] }) ⟨by simp, le_refl _, fun _ _ => rfl⟩ _ hra'.2
+  · simp at h
+
 /-- ids of the stoichiometry arrays an object holds -/
 def Obj.arrIds : Obj α → List Nat
   | .rxn r => [r.nu]
@@ -593,7 +639,7 @@ theorem step_wf (s s' : Store α) (op : Op α) (k : Nat) (hwf : s.WF) (h : s.ste
   cases hp : s.pureOp op with
   | some r =>
     obtain ⟨a, _, hs, _⟩ := step_pure_ok s s' op k r hp h
-    rw [hs]; exact newRxn_wf s hwf a
+    rw [hs]; exact newRxn_wf s hwf _ a
   | none =>
     cases op <;> simp [Store.pureOp] at hp <;> simp only [Store.step, Store.pureOp] at h
     case iadd a b => exact iaddSubOp_wf s s' false a b k hwf h
@@ -602,7 +648,10 @@ theorem step_wf (s s' : Store α) (op : Op α) (k : Nat) (hwf : s.WF) (h : s.ste
     case idiv a c => exact idivOp_wf s s' a c k hwf h
     case setX a c => exact setXOp_wf s s' a c k hwf h
     case setBasis a b => exact setBasisOp_wf s s' a b k hwf h
-    case mkSet ms => exact mkSetOp_wf s s' ms k hwf h
+    case mkSet ser ms => exact mkSetOp_wf s s' ser ms k hwf h
+    case setCopy sid b => exact setCopyOp_wf s s' sid b k hwf h
+    case slice sid i j => exact sliceOp_wf s s' sid i j k hwf h
+    case reset a p => exact resetOp_wf s s' a p k hwf h
     case item sid i => exact itemOp_wf s s' sid i k hwf h
     case setSetX sid i x => exact setSetXOp_wf s s' sid i x k hwf h
     case reduce sid order => exact reduceOp_wf s s' sid order k hwf h
@@ -654,7 +703,7 @@ theorem outcome_pure (s : Store α) (op : Op α) (r : Except Err (RVal α)) (hp 
 theorem iaddSub_eq_binary (s : Store α) (hwf : s.WF) (sub : Bool) (a : Nat) (b : Option Nat) :
     outcome s (if sub then .isub a b else .iadd a b) = outcome s (if sub then .sub a b else .add a b) := by
   have hR : outcome s (if sub then .sub a b else .add a b)
-      = (do (← s.valOf a).addSub s.mw sub (← s.optVal b)) := by
+      = (do (← s.valOf a).addSub (s.mwOf (s.pkgOf a)) sub (← s.optValFor a b)) := by
     cases sub <;> exact outcome_pure s _ _ rfl
   have hL : outcome s (if sub then .isub a b else .iadd a b)
       = (match s.iaddSubOp sub a b with | .error e => .error e | .ok (s', k) => s'.valOf k) := by
@@ -667,7 +716,7 @@ theorem iaddSub_eq_binary (s : Store α) (hwf : s.WF) (sub : Bool) (a : Nat) (b 
     rw [valOf_of_rxn? hra]
     have ha := lt_of_rxn? hra
     have hx := (rxn_wf_of_ok hwf hra).2
-    cases hb : s.optVal b with
+    cases hb : s.optValFor a b with
     | error e => simp [bind, Except.bind]
     | ok ob =>
       cases ob with
@@ -676,7 +725,7 @@ theorem iaddSub_eq_binary (s : Store α) (hwf : s.WF) (sub : Bool) (a : Nat) (b 
         cases hre : vb.hasReaction
         · simp [bind, Except.bind, addSub_noReaction _ _ _ _ hre, hre, valOf_of_rxn? hra]
         · simp only [bind, Except.bind, hre, Bool.not_true, Bool.false_eq_true, if_false]
-          cases hr : (s.val ra).addSub s.mw sub (some vb) with
+          cases hr : (s.val ra).addSub (s.mwOf (s.pkgOf a)) sub (some vb) with
           | error e => rfl
           | ok r =>
             obtain ⟨h1, h2, h3⟩ := addSub_fields _ _ _ _ _ hr
@@ -700,7 +749,7 @@ theorem valOf_normal (s : Store α) (hin : ∀ id r, s.rxn? id = .ok r → (s.va
 /-- the operations whose result must not share anything with what exists: the arithmetic, `copy`,
 `backwards`, the constructors (everything `pureOp` covers) and `reduce` -/
 def makesFresh (s : Store α) (op : Op α) : Prop :=
-  (s.pureOp op).isSome ∨ ∃ sid order, op = .reduce sid order
+  (s.pureOp op).isSome ∨ (∃ sid order, op = .reduce sid order) ∨ (∃ sid b, op = .setCopy sid b)
 
 
 /-! ### `ParallelReaction.reduce`: pointwise sums -/
@@ -964,5 +1013,91 @@ theorem reduceVals_dAt (mw : List α) (ms : List (RVal α)) (n : List α) (basis
         simp only [List.map_cons, List.sum_cons]
         rw [hgg.1, ← hs i]
         ring
+
+/-! ### Operands on different bases -/
+
+theorem addSub_some_inv (mw : List α) (sub : Bool) (a b c : RVal α) (hre : b.hasReaction = true)
+    (h : a.addSub mw sub (some b) = .ok c) :
+    ∃ b', b.copyB mw (BArg.ofBasis a.basis) = .ok b' ∧ a.ph = b'.ph ∧ a.ridx = b'.ridx ∧
+      ∃ v, combineV sub a.v a.x b'.v b'.x b'.ridx = .ok v ∧
+        c = { a with v := v, x := if sub then a.x - b'.x else a.x + b'.x } := by
+  unfold RVal.addSub at h
+  simp only [hre, Bool.not_true, Bool.false_eq_true, if_false] at h
+  split at h; · exact absurd h (by simp)
+  rename_i b' hb'
+  split at h; · exact absurd h (by simp)
+  rename_i v hv
+  have hc := (Except.ok.inj h).symm
+  unfold RVal.compat at hb'
+  split at hb'; · exact absurd hb' (by simp)
+  rename_i b'' hb''
+  split at hb'; · exact absurd hb' (by simp)
+  rename_i hph
+  split at hb'; · exact absurd hb' (by simp)
+  rename_i hr
+  have := Except.ok.inj hb'; subst this
+  simp only [ne_eq, not_not] at hph hr
+  exact ⟨b'', hb'', hph, hr, v, hv, hc⟩
+
+/-- what `copy(basis)` keeps: conversion, reactant, phases, length; the result carries the requested basis and is
+normalised on the reactant if the original is -/
+theorem copyB_ofBasis (mw : List α) (b b' : RVal α) (tgt : Basis) (hb : b.v.getD b.ridx 0 = -1)
+    (hl : b.v.length = (mwFlat mw b.ph).length)
+    (h : b.copyB mw (BArg.ofBasis tgt) = .ok b') :
+    b'.x = b.x ∧ b'.ridx = b.ridx ∧ b'.ph = b.ph ∧ b'.basis = tgt ∧ b'.v.length = b.v.length ∧
+      b'.v.getD b'.ridx 0 = -1 := by
+  cases tgt <;> simp only [BArg.ofBasis, RVal.copyB] at h
+  all_goals
+    split at h
+    · rename_i hbas
+      have := Except.ok.inj h; subst this
+      exact ⟨rfl, rfl, rfl, hbas, rfl, hb⟩
+    · split at h; · exact absurd h (by simp)
+      rename_i v' hv'
+      have := Except.ok.inj h; subst this
+      refine ⟨rfl, rfl, rfl, rfl, ?_, rescale_normal _ _ _ hv'⟩
+      simp only [rebaseV, rescale_def] at hv'
+      split at hv'; · exact absurd hv' (by simp)
+      have := Except.ok.inj hv'; subst this
+      simp [hl]
+
+/-! ### Re-indexing onto another package -/
+
+theorem gatherV_length (τ : Nat → Option Nat) (len : Nat) (v : List α) : (gatherV τ len v).length = len := by
+  simp [gatherV]
+
+theorem gatherV_getD (τ : Nat → Option Nat) (len : Nat) (v : List α) (t : Nat) :
+    (gatherV τ len v).getD t 0 =
+      if t < len then (match τ t with | some j => v.getD j 0 | none => 0) else 0 := by
+  by_cases h : t < len
+  · rw [getD_of_lt _ _ (by simp [gatherV, h])]
+    simp only [gatherV, List.getElem_map, List.getElem_range, h, if_true]
+    cases τ t <;> rfl
+  · rw [getD_of_ge _ _ (by simp [gatherV]; omega)]
+    simp [h]
+
+theorem missing_false (σ : Nat → Option Nat) (v : List α) (h : missing σ v = false) (j : Nat)
+    (hj : v.getD j 0 ≠ 0) : ∃ k, σ j = some k := by
+  have hlt := lt_of_getD_ne v j hj
+  simp only [missing, List.any_eq_false, List.mem_range, Bool.and_eq_true, decide_eq_true_eq,
+    Option.isNone_iff_eq_none, not_and] at h
+  have := h j hlt hj
+  cases hσ : σ j with
+  | none => exact absurd hσ this
+  | some k => exact ⟨k, rfl⟩
+
+theorem react_getD (v : List α) (r : Nat) (x : α) (n : List α) (hl : v.length = n.length) (i : Nat) :
+    (react v r x n).getD i 0 = n.getD i 0 + n.getD r 0 * x * v.getD i 0 := by
+  unfold react
+  rw [zipWith_getD _ (by simp) n v hl.symm i]
+
+/-! ### Packages -/
+
+theorem pkgOf_rxn {s : Store α} {a : Nat} {r : Rxn α} (h : s.rxn? a = .ok r) : s.pkgOf a = r.pkg := by
+  simp [Store.pkgOf, rxn?_ok h]
+
+theorem optValFor_same {s : Store α} {a b : Nat} {rb : Rxn α} (hrb : s.rxn? b = .ok rb)
+    (hpk : s.pkgOf a = s.pkgOf b) : s.optValFor a (some b) = .ok (some (s.val rb)) := by
+  simp [Store.optValFor, valOf_of_rxn? hrb, hpk]
 
 end ThermoVerif.ReactionAlgebra
